@@ -577,6 +577,52 @@ namespace
         check_deferred();
         res.nontrivial = overflow_offered;
     }
+    // capacities beyond 16 bits: static_vector<uint8_t, 70000> and static_string<70000> filled past their capacity
+    struct BigCapWorld : World
+    {
+        const char *name() const override { return PARTNAME "capacity 70000"; }
+        unsigned weight(Tier) const override { return 1; }
+        Plan generate(Rng &r, Tier) override
+        {
+            Plan p;
+            p.cfg = {(int64_t)r.below(4)};
+            p.ops.push_back({(int64_t)r.below(3), (int64_t)r.below(500)});
+            return p;
+        }
+        Result execute(const Plan &p, Trace &tr) override
+        {
+            Result res;
+            const size_t N = 70000;
+            int extra = p.ops.empty() ? 1 : (int)mod(arg(p.ops[0], 1), 500);
+            {
+                typedef igris::static_vector<uint8_t, N> SV;
+                void *mem = simalloc::raw_alloc(sizeof(SV));
+                SV *v = new (mem) SV();
+                for (size_t i = 0; i < N + (size_t)extra; i++) v->push_back((uint8_t)(i * 13));
+                if (v->size() != N || v->room() != 0) violate("C14/over-capacity@push_back", "static_vector<uint8_t,70000> offered %zu elements reports size %zu room %zu", N + (size_t)extra, v->size(), v->room());
+                for (size_t i = 0; i < N; i += (i > 64 && i < N - 64 && i % 8192 ? 257 : 1))
+                    if ((*v)[i] != (uint8_t)(i * 13)) violate("C14/sequence@push_back", "element %zu of a static_vector<uint8_t,70000> differs from what was pushed", i);
+                v->resize(65536 + (size_t)extra);
+                if (v->size() != 65536 + (size_t)extra) violate("C14/size@resize", "static_vector<uint8_t,70000> resized to %zu reports %zu", 65536 + (size_t)extra, v->size());
+                v->~SV();
+                simalloc::raw_free(mem, sizeof(SV), "C14");
+            }
+            {
+                typedef igris::static_string<N> SS;
+                void *mem = simalloc::raw_alloc(sizeof(SS));
+                SS *x = new (mem) SS();
+                for (size_t i = 0; i < N + (size_t)extra; i++) x->push_back((char)('a' + i % 26));
+                if (x->size() != N || x->room() != 0 || strlen(x->c_str()) != N) violate("C14/string-over-capacity@after-op", "static_string<70000> offered %zu characters reports size %zu, c_str() length %zu", N + (size_t)extra, x->size(), strlen(x->c_str()));
+                x->~SS();
+                simalloc::raw_free(mem, sizeof(SS), "C14");
+            }
+            check_deferred();
+            probe("capacity_over_65535");
+            tr.ev("big capacity, %d extra", extra);
+            res.nontrivial = true;
+            return res;
+        }
+    };
     struct SSWorld : World
     {
         const char *name() const override { return PARTNAME "static_string"; }
@@ -616,7 +662,8 @@ int main(int argc, char **argv)
     SSWorld ws;
     Harness h;
     h.property = "C14";
-    h.worlds = {&wi, &wt, &ws, &wh, &wy, &wu};
+    BigCapWorld wbig;
+    h.worlds = {&wi, &wt, &ws, &wh, &wy, &wu, &wbig};
 #ifdef C14_TWIN
     h.real = {"igris/container/std_portable.h (static_vector, static_string twins)"};
 #else
